@@ -39,7 +39,8 @@ def make(kind, N, init_epoch, seed, mode):
 class C13(PropertyCheck):
     pid = "C13"
     rule = ("exhaustive grid over N, world (0 = no process group), all ranks, 4 uneven modes, "
-            "random/sequential sampler, (init_epoch, consumed epochs); a case is one whole group. "
+            "random/sequential sampler, (init_epoch, consumed epochs); a case is one whole group; plus a "
+            "non-member stream (get_rank() == -1 in an initialised group of 2 or 3). "
             "non-trivial: N >= 2 and world >= 2, or >= 1 consumed epoch; distinct by the case tuple")
     assumptions = [
         "torch.distributed environment simulated by patching is_available/is_initialized/get_rank/get_world_size",
@@ -62,6 +63,13 @@ class C13(PropertyCheck):
                 Ns, Ws, ("raise", "drop", "uneven", "ignore"), ("random", "sequential"), hist):
             yield {"N": N, "world": W, "mode": mode, "kind": kind, "seed": seed + N, "init_epoch": e0,
                    "consumed": k}
+        # audit addition: a process that is not a member of the (initialised) group: get_rank() == -1.
+        # __init__ tests `get_rank() >= 0`, the model's `dist = none`: every mode must then behave as
+        # outside a group (full epoch, no ValueError even for an indivisible size).
+        for N, W, mode, kind in itertools.product(Ns, (2, 3), ("raise", "drop", "uneven", "ignore"),
+                                                  ("random", "sequential")):
+            yield {"N": N, "world": W, "mode": mode, "kind": kind, "seed": seed + N, "init_epoch": 1,
+                   "consumed": 1, "neg_rank": True}
 
     # ------------------------------------------------------------------ implementation
     def oracle_perms(self, case):
@@ -73,7 +81,7 @@ class C13(PropertyCheck):
     def run_impl(self, case):
         W = case["world"]
         ranks = []
-        for r in range(max(W, 1)):
+        for r in ([-1] if case.get("neg_rank") else range(max(W, 1))):
             with fake_dist(r, W):
                 try:
                     s = make(case["kind"], case["N"], case["init_epoch"], case["seed"], case["mode"])
@@ -98,14 +106,23 @@ class C13(PropertyCheck):
                 for j in reversed(range(len(its))):
                     lazy[j] = [int(x) for x in its[j]]
                 del extra_it
+                # a query for the current epoch without iterating, then an assignment of `.epoch` (what the
+                # loaders' epoch setter does on resume / rewind), then a pass: must be the assigned epoch's order
+                s4 = make(case["kind"], case["N"], case["init_epoch"], case["seed"], case["mode"])
+                peek0 = [int(x) for x in s4.get_samples_for_epoch(s4.epoch)]
+                s4.epoch = case["init_epoch"] + case["consumed"]
+                jump = [int(x) for x in s4]
+                peek1 = [int(x) for x in s4.get_samples_for_epoch(s4.epoch - 1)]
+                s4.epoch = case["init_epoch"]
+                rewind = [int(x) for x in s4]
                 ranks.append({"init": "ok", "len": ln, "len_after": lens_after, "yields": ys,
                               "final_epoch": int(s.epoch), "direct_last": direct, "explicit_first": explicit,
-                              "lazy_yields": lazy})
+                              "lazy_yields": lazy, "peek_assign": [peek0, jump, peek1, rewind]})
         return {"ranks": ranks}
 
     def model_request(self, case):
         return {"op": "c13.group", "case": {
-            "N": case["N"], "mode": case["mode"], "world": case["world"],
+            "N": case["N"], "mode": case["mode"], "world": 0 if case.get("neg_rank") else case["world"],
             "init_epoch": case["init_epoch"], "perms": self.oracle_perms(case)}}
 
     def compare(self, case, impl, model):
@@ -124,6 +141,9 @@ class C13(PropertyCheck):
                 out.append(f"rank {r}: yields impl={a['yields']} model={b['yields']}")
             if a["lazy_yields"] != b["yields"]:
                 out.append(f"rank {r}: lazily consumed yields impl={a['lazy_yields']} model={b['yields']}")
+            want = [b["yields"][0], b["yields"][-1], b["yields"][-1], b["yields"][0]]
+            if a["peek_assign"] != want:
+                out.append(f"rank {r}: query / assign .epoch / iterate: impl={a['peek_assign']} model={want}")
             if a["final_epoch"] != b["final_epoch"]:
                 out.append(f"rank {r}: epoch impl={a['final_epoch']} model={b['final_epoch']}")
         return out
@@ -139,7 +159,7 @@ class C13(PropertyCheck):
             if sorted(p) != list(range(N)):
                 fails.append((f"epoch ordering is not a permutation of range({N}): {p}", None))
         ranks = impl["ranks"]
-        grouped = W >= 1 and mode != "ignore"
+        grouped = W >= 1 and mode != "ignore" and not case.get("neg_rank")
         indivisible = grouped and N % W != 0
         if mode == "raise" and indivisible:
             if any(r["init"] != "error" for r in ranks):
@@ -158,6 +178,10 @@ class C13(PropertyCheck):
             if r["lazy_yields"] != r["yields"]:
                 fails.append((f"rank {ri}: the order yielded for an epoch depends on when its iterator is consumed "
                               f"(iterators taken first, consumed later: {r['lazy_yields']} vs {r['yields']})", None))
+            pa = r["peek_assign"]
+            if pa != [r["yields"][0], r["yields"][-1], r["yields"][-1], r["yields"][0]]:
+                fails.append((f"rank {ri}: after get_samples_for_epoch(epoch) and an assignment of .epoch the pass does not "
+                              f"yield the assigned epoch's order (query, jump, query, rewind = {pa})", None))
             if r["explicit_first"] != r["yields"][0]:
                 fails.append((f"rank {ri}: get_samples_for_epoch differs after iteration", None))
         for e, p in enumerate(perms):
@@ -183,6 +207,8 @@ class C13(PropertyCheck):
         t = [f"mode={case['mode']}", f"kind={case['kind']}", f"world={case['world']}"]
         if case["world"] and case["N"] % case["world"]:
             t.append("indivisible")
+        if case.get("neg_rank"):
+            t.append("rank=-1")
         if isinstance(impl, dict) and any(r.get("init") == "error" for r in impl.get("ranks", [])):
             t.append("init_raises")
         return t
